@@ -228,13 +228,57 @@ def interruptedOne (b : BusyRef) (t : Task) (ivs : List (Int × Int)) : List Fml
       (match maxD with | some m => [Fml.le t.dVar (.add (numT m) (.sum overlaps))] | none => [])
   | _ => ivs.map (fun iv => Fml.xor (.ge s (numT iv.2)) (.le e (numT iv.1)))
 
+/-- ResourcePeriodicallyUnavailable: the folded-start test for one busy interval and one interval of the period -/
+def periodicCore (b : BusyRef) (iv : Int × Int) (period offset : Int) : Fml :=
+  let folded := Term.mod (.sub b.s (numT offset)) (numT period)
+  Fml.xor (.ge folded (numT iv.2)) (.le (.add folded (.sub b.e b.s)) (numT iv.1))
+
+/-- the masks of `start` / `end` -/
+def periodicMasks (b : BusyRef) (start : Int) (end_ : Option Int) : List Fml :=
+  (if start > 0 then [Fml.le b.e (numT start)] else []) ++
+  (match end_ with | some en => [Fml.ge b.s (numT en)] | none => [])
+
 /-- ResourcePeriodicallyUnavailable: the formula for one busy interval and one interval of the period -/
 def periodicOne (b : BusyRef) (iv : Int × Int) (period start offset : Int) (end_ : Option Int) : Fml :=
-  let folded := Term.mod (.sub b.s (numT offset)) (numT period)
-  let core := Fml.xor (.ge folded (numT iv.2)) (.le (.add folded (.sub b.e b.s)) (numT iv.1))
-  let conds := [core] ++ (if start > 0 then [Fml.le b.e (numT start)] else []) ++
-               (match end_ with | some en => [Fml.ge b.s (numT en)] | none => [])
-  if conds.length > 1 then .or conds else core
+  if (periodicMasks b start end_).length > 0 then .or (periodicCore b iv period offset :: periodicMasks b start end_)
+  else periodicCore b iv period offset
+
+/-- ResourcePeriodicallyInterrupted: the conjuncts contributed by one busy interval (resource_constraint.py:431-520;
+    note `folded_start + duration % period` is `folded_start + (duration mod period)`) -/
+def periodicInterruptedOne (b : BusyRef) (t : Task) (ivs : List (Int × Int)) (period offset : Int) : List Fml :=
+  let s := b.s
+  let e := b.e
+  let dur := Term.sub e s
+  let fs := Term.mod (.sub s (numT offset)) (numT period)
+  let fe := Term.mod (.sub e (numT offset)) (numT period)
+  let crossing (iv : Int × Int) : Fml :=
+    .not (.xor (.and [.le fs (numT iv.1), .le (.add fs (.mod dur (numT period))) (numT iv.1)])
+               (.and [.ge fs (numT iv.2), .le (.add fs (.mod dur (numT period))) (numT (iv.1 + period))]))
+  match t.kind with
+  | .var minD maxD _ =>
+      let overlaps := ivs.map (fun iv =>
+        Term.ite (.or [crossing iv, .gt dur (numT (iv.1 + period - iv.2))])
+          (.mul (numT (iv.2 - iv.1))
+            (.ite (crossing iv) (.add (.div dur (numT period)) (numT 1)) (.div dur (numT period))))
+          (numT 0))
+      ivs.flatMap (fun iv => [Fml.xor (.le fs (numT iv.1)) (.ge fs (numT iv.2)), Fml.xor (.le fe (numT iv.1)) (.ge fe (numT iv.2))]) ++
+      [Fml.ge t.dVar (.add (numT minD) (.sum overlaps))] ++
+      (match maxD with | some m => [Fml.le t.dVar (.add (numT m) (.sum overlaps))] | none => [])
+  | _ => ivs.map (fun iv => Fml.xor (.ge fs (numT iv.2)) (.le (.add fs dur) (numT iv.1)))
+
+/-- the `start` / `end` masks use the variables of the LAST busy interval of the loop (Python scoping) -/
+def periodicInterruptedMasks (busy : List (BusyRef × Task)) (start : Int) (end_ : Option Int) : List Fml :=
+  match busy.getLast? with
+  | some (b, _) =>
+      (if start > 0 then [Fml.le b.e (numT start)] else []) ++
+      (match end_ with | some en => [Fml.ge b.s (numT en)] | none => [])
+  | none => []
+
+def periodicInterruptedAll (busy : List (BusyRef × Task)) (ivs : List (Int × Int)) (period start offset : Int)
+    (end_ : Option Int) : Fml :=
+  let core := Fml.and (busy.flatMap (fun (b, t) => periodicInterruptedOne b t ivs period offset))
+  if (periodicInterruptedMasks busy start end_).length > 0 then .or (core :: periodicInterruptedMasks busy start end_)
+  else core
 
 /-- the formulas handed, one by one, to `set_z3_assertions` (or appended directly) by the
     constructor of a constraint, before the optional-constraint wrapper -/
@@ -296,6 +340,8 @@ def CBody.raw (c : Nat) : CBody → List Fml
   | .interrupted ws ivs => ws.map (fun w => Fml.and (w.flatMap (fun (b, t) => interruptedOne b t ivs)))
   | .periodicallyUnavailable busy ivs period start offset end_ =>
       ivs.flatMap (fun iv => busy.map (fun b => periodicOne b iv period start offset end_))
+  | .periodicallyInterrupted busy ivs period start offset end_ =>
+      [periodicInterruptedAll busy ivs period start offset end_]
   | .sameWorkers s1 s2 =>
       (s1.workers.filter (fun w => s2.workers.contains w)).map (fun w =>
         Fml.iff (.bvar (.sel s1.id w)) (.bvar (.sel s2.id w)))
